@@ -5,6 +5,10 @@ from .common import ReplayCase, case_payload, classify_wellformed, coverage_fina
 
 ID = "C11"
 LEVEL = "exploration"
+MIX = True  # a share of the decodes goes through the other front ends and byte sources (context.py)
+MIX_EXCLUDE = ("pcapng",)  # these checks look at the object the decoder returns; the pcapng front end does not pass it on
+HISTORY = True  # every second shard first runs a prelude of earlier library use (history.py)
+OLANE = True  # two more shards run in an interpreter started with -O (runner.start_olane)
 RULE = (
     "every hypothesis-generated well-formed encoding (coverage pass over all types / command codes / session shapes / encryption / "
     "failed responses + random, biased to empty structured TPM2Bs and payload-less union arms); oracle = round-trip relations on one "
